@@ -232,7 +232,7 @@ def invariants(p, mu):
     return E, h, e
 
 
-def judge(p, mu, dt, out, K=64, with_invariants=True, compound=False):
+def judge(p, mu, dt, out, K=64, with_invariants=True, compound=False, _return_tol=False):
     """returns dict(ok, ratio_pos, ratio_vel, ratio_E, ratio_h, ratio_e, theta) ; ratios = error / tolerance."""
     _setctx()
     pD = [D(v) for v in p]
@@ -277,6 +277,8 @@ def judge(p, mu, dt, out, K=64, with_invariants=True, compound=False):
         amp = amp * amp
     tol_pos = K * U * amp * (spos + rp)
     tol_vel = K * U * amp * (svel + vp)
+    if _return_tol:
+        return {"tol_pos": tol_pos, "tol_vel": tol_vel, "theta": float(info["theta"])}
     oD = [D(v) for v in out]
     epos = norm3(*[oD[k] - ref[k] for k in range(3)])
     evel = norm3(*[oD[k] - ref[k] for k in range(3, 6)])
@@ -301,4 +303,41 @@ def judge(p, mu, dt, out, K=64, with_invariants=True, compound=False):
                     "dE_rel": float(dE / (vp * vp + muD / rp)), "dh_rel": float(dh / hn) if hn else 0.0, "de_abs": float(de)})
         ok = ok and dE <= tolE and dh <= tolh and de <= tole
     res["ok"] = bool(ok)
+    return res
+
+
+def judge_two_halves(p, mu, dt, out, K=64):
+    """Full integrator step = two solver calls of dt/2 (WHFast, MERCURIUS, TRACE; SABA's stages are treated alike).
+    The first half's admissible error (tolerance of a single call from p) is a perturbation of the exact midpoint
+    state, of relative size k1 roundoffs (estimated with K=1); the second half amplifies it by its own input sensitivity, which the
+    single-call tolerance from the midpoint already measures per roundoff.  Total tolerance =
+    tol(second half from the exact midpoint) * (1 + k1) ; the result is compared with the exact flow of dt."""
+    _setctx()
+    pD = [D(v) for v in p]
+    half = D(dt) / 2
+    mid, _, _ = flow(pD, mu, half)
+    r1 = judge(pD, mu, half, [float(v) for v in mid], K=1, with_invariants=False, compound=True, _return_tol=True)
+    rm = norm3(*mid[:3]); vm = norm3(*mid[3:])
+    k1 = max(r1["tol_pos"] / rm, r1["tol_vel"] / vm) / U
+    ref, _, _ = flow(pD, mu, dt)
+    r2 = judge(mid, mu, half, [float(v) for v in ref], K=K, with_invariants=False, compound=True, _return_tol=True)
+    tol_pos = r2["tol_pos"] * (1 + k1)
+    tol_vel = r2["tol_vel"] * (1 + k1)
+    oD = [D(v) for v in out]
+    rp = norm3(*ref[:3]); vp = norm3(*ref[3:])
+    epos = norm3(*[oD[k] - ref[k] for k in range(3)])
+    evel = norm3(*[oD[k] - ref[k] for k in range(3, 6)])
+    res = {"ratio_pos": float(epos / tol_pos), "ratio_vel": float(evel / tol_vel), "theta": r2["theta"] * 2,
+           "err_pos_rel": float(epos / rp), "err_vel_rel": float(evel / vp), "k1_roundoffs": float(k1)}
+    muD = D(mu)
+    E0, h0, e0 = invariants(pD, mu)
+    E1, h1, e1 = invariants(oD, mu)
+    tolE = 4 * (vp * tol_vel + muD / (rp * rp) * tol_pos)
+    tolh = 4 * (rp * tol_vel + vp * tol_pos)
+    tole = 4 * ((3 * rp * vp * tol_vel + (vp * vp + 2 * muD / rp) * tol_pos) / muD)
+    dE = abs(E1 - E0)
+    dh = norm3(*[h1[k] - h0[k] for k in range(3)])
+    de = norm3(*[e1[k] - e0[k] for k in range(3)])
+    res.update({"ratio_E": float(dE / tolE), "ratio_h": float(dh / tolh), "ratio_e": float(de / tole)})
+    res["ok"] = bool(epos <= tol_pos and evel <= tol_vel and dE <= tolE and dh <= tolh and de <= tole)
     return res
